@@ -328,7 +328,11 @@ func (m *machine) visitInstr(fr *frame, instr ssa.Instruction) (jump bool, ret b
 	case *ssa.MakeInterface:
 		fr.env[instr] = iface{t: instr.X.Type(), v: m.get(fr, instr.X)}
 	case *ssa.Extract:
-		fr.env[instr] = m.get(fr, instr.Tuple).(tuple)[instr.Index]
+		tv := m.get(fr, instr.Tuple)
+		if b, isb := tv.(bad); isb {
+			unsupp("use of unsupported value (%s)", b.why)
+		}
+		fr.env[instr] = tv.(tuple)[instr.Index]
 	case *ssa.Slice:
 		fr.env[instr] = m.slice(instr, m.get(fr, instr.X), m.get(fr, instr.Low), m.get(fr, instr.High), m.get(fr, instr.Max))
 	case *ssa.Return:
